@@ -26,9 +26,9 @@ def plan(tier, seed):
     n = 8
     for s in range(n):
         jobs.append({"variant": "c" if s % 2 else "py", "part": "kernel", "shard": s // 2, "nshards": n // 2, "params": {}})
-    nr = 8 if thorough else 4
+    nr = 16 if thorough else 4
     for s in range(nr):
-        jobs.append({"variant": "c" if s % 2 else "py", "part": "random", "shard": s, "nshards": nr, "params": {"n": 120000 if thorough else 10000}})
+        jobs.append({"variant": "c" if s % 2 else "py", "part": "random", "shard": s, "nshards": nr, "params": {"n": 400000 if thorough else 10000}})
     return jobs
 
 
